@@ -5,7 +5,7 @@ NOTES = ("Solver-based checking of the real code: z3 decides, per program skelet
 ENGINES = [
     {"name": "E4 leaf", "path": "vlib/xh.py", "kind_free_text":
         "CrossHair (symbolic execution of Python with z3) on generated harness modules: shape-concrete, data-symbolic; verdicts parsed per condition, counterexamples replayed concretely",
-     "serves_properties": ["C14", "C16", "C28", "C34"]},
+     "serves_properties": ["C14", "C15", "C16", "C28", "C34"]},
     {"name": "E5 shadow", "path": "vlib/sym.py + vlib/leaf.py", "kind_free_text":
         "proxy values over z3 terms (reals, log values, ints, strings) driven through the real functions by a DFS path driver; builtins shadowed as module globals",
      "serves_properties": ["C12"]},
@@ -90,4 +90,8 @@ CHECKS["C16"] = dict(engine="E4 leaf (CrossHair, vlib/xh.py + vlib/arith_ref.py)
     technique="CrossHair symbolic execution (z3 integers/reals) of the real arithmetic table (through compute_function), is/2, the comparison builtins and the term-inspection builtins per function and call mode, against a reference of the semantics Yap and SWI share",
     text="Every entry of the arithmetic function table that has an agreed Prolog meaning is called with symbolic integer operands (|v| <= 10^6) and with dyadic floats n/8 (symbolic n), and compared - value and type - with an integer-arithmetic reference; errors must be ProbLog errors. Comparison builtins, is/2, between/3, succ/2, plus/3, length/2, arg/3, functor/3, =../2 and the type tests are driven in every supported call mode with symbolic numbers inside enumerated term shapes.",
     note="About 40% of the conditions end 'Not confirmed' within the quick budget (CrossHair does not exhaust float paths and 10^6-wide integer ranges for every operator) and are reported inconclusive: for those the check is bug-hunting only. Not asserted: rem, int/int with /, ** on ints, negative shift counts/exponents, mixed-type min/max, transcendental functions. atom_number/2 on concrete atoms only. Known finding: is_list/1 on partial lists (pinned by the repo's tests).")
+CHECKS["C15"] = dict(engine="E4 leaf (CrossHair, vlib/xh.py + vlib/order_ref.py)", category="other",
+    technique="CrossHair symbolic execution (z3) of the real struct_cmp, compare/3, @<, @=<, @>, @>= and sort/2 per ordered pair of term shapes with symbolic integer leaves, against a reference total order",
+    text="Per ordered pair of term shapes (variables, integers, floats, atoms, quoted atoms, strings, f/1, f/2, g/2, nested, list cell) with symbolic integer leaves (|v| <= 120: negative and multi-digit) and floats k/2, the real struct_cmp in both argument orders, compare/3 in both modes and the four order builtins must agree with the reference standard order; agreement with a total order on all pairs yields totality, antisymmetry and transitivity. sort/2 on triples must be strictly ascending, duplicate-free and keep exactly the input's elements.",
+    note="Shapes enumerated (quick: all leaf pairs with an integer + seeded sample of the rest). Not asserted: order between distinct variables, strings vs atoms/compounds. builtin float()/int() of a Constant are shimmed inside the CrossHair process (CrossHair cannot pass a symbolic value through __float__/__int__). 'Not confirmed' (int vs float pairs) is inconclusive.")
 NOT_APPLICABLE = {"C30": "check file exists (props/c30.py) but its triage is unfinished: it reports violations on the unchanged tree that have not been classified, so the property is not claimed"}
